@@ -1,4 +1,6 @@
 """C04 - operator abort: run ends ABORTED, nothing new starts, no deadlock (deterministic scheduler)."""
+import json
+import os
 import signal
 import sys
 import threading as real_threading
@@ -26,8 +28,14 @@ RULE = ('Program templates (test_start present/absent; plain phases; group with 
         'main had started and plug tearDown still run (unless a second abort); an abort that returned before plug tearDown began '
         'gives outcome ABORTED, and an aborted run is never PASS; every output callback is called exactly once; two killable '
         'bodies of one test never overlap; no body starts after the record was handed to the callbacks.  Non-trivial = the abort '
-        'landed strictly inside the run (after the executor was created, before finalisation); distinct by (template, injection points).')
-ASSUMPTIONS = ['Signal delivery is modelled: the handler runs on the execute() thread at its next yield point or interrupts its wait.',
+        'landed strictly inside the run (after the executor was created, before finalisation); distinct by (template, injection points).  '
+        'Plus REAL signals (the scheduler replaces Thread.join and models delivery, so it cannot see the interpreter\'s own behaviour): '
+        '20 enumerated cases {first SIGINT of the process (handler raises KeyboardInterrupt) or not} x {body of a main / teardown / '
+        'test_start phase} x delay x {one, two SIGINTs}, each in a forked child with real threads and os.kill; timing-independent '
+        'oracle: execute() returns False or re-raises KeyboardInterrupt, one callback with a finalized ABORTED record, after plug '
+        'tearDown (and after the teardown phases for a single abort), nothing of the run continues after execute() is over.')
+ASSUMPTIONS = ['In the scheduled part signal delivery is modelled: the handler runs on the execute() thread at its next yield point or interrupts its wait; '
+               'the real-signal part covers only delivery while execute() waits (>=50 ms after a body started).',
                'Bodies that swallow ThreadTerminationError and keep running are excluded from the overlap invariant (they outlive their phase by construction); '
                'bodies that need clean-up time shorter than cancel_timeout_s after the kill (template slow-exit) are included: the executor waits for them.',
                'A body that ran into its own phase timeout (180 virtual seconds) is abandoned by design (C12) and not counted as overlapping.']
@@ -365,9 +373,130 @@ def check(case):
   return r, s
 
 
+# ------------------------------------------------------------------ real SIGINT, real threads, real Thread.join
+REAL_CASES = [{'first': first, 'where': where, 'delay_ms': d, 'second_after_ms': second}
+              for first in (True, False) for where in ('main', 'teardown', 'test_start') for d in (50, 150)
+              for second in (None, 120) if not (second and where == 'test_start')]
+
+
+def _real_child(case):
+  """Runs in a forked child (its only job): one Test, one or two real SIGINTs sent with os.kill. Returns a dict."""
+  import os as _os  # pylint: disable=g-import-not-at-top
+  import time as _time  # pylint: disable=g-import-not-at-top
+  htf = ohtf.reset_case(cancel_timeout_s=2, plug_teardown_timeout_s=5)
+  logging_ = __import__('logging')
+  logging_.disable(logging_.CRITICAL)
+  signal.signal(signal.SIGINT, htf.Test.handle_sig_int)
+  htf.Test.DEFAULT_SIGINT_HANDLER = staticmethod(signal.default_int_handler)
+  htf.Test.HANDLED_SIGINT_ONCE = not case['first']
+  log = []
+
+  def fire():
+    _time.sleep(case['delay_ms'] / 1000.0)
+    log.append('sigint-1')
+    _os.kill(_os.getpid(), signal.SIGINT)
+    if case['second_after_ms']:
+      _time.sleep(case['second_after_ms'] / 1000.0)
+      log.append('sigint-2')
+      _os.kill(_os.getpid(), signal.SIGINT)
+
+  def blocking(name, trigger):
+    def body(test):
+      log.append(name + '-start')
+      if trigger:
+        real_threading.Thread(target=fire, daemon=True).start()
+        for _ in range(300):      # killable: the asynchronous exception is delivered between the short sleeps
+          _time.sleep(0.01)
+      else:
+        _time.sleep(0.05)
+      log.append(name + '-end')
+    body.__name__ = name
+    return body
+
+  class P(htf.plugs.BasePlug):
+    def tearDown(self):
+      _time.sleep(0.2)
+      log.append('plug-td')
+
+  where = case['where']
+  main = htf.plug(p=P)(lambda test, p: blocking('main', where == 'main')(test))
+  main.func.__name__ = 'main'
+  td = blocking('teardown', where == 'teardown')
+  td2 = blocking('teardown2', False)
+  test = htf.Test(htf.PhaseGroup(main=[main], teardown=[td, td2]))
+  got = []
+  test.add_output_callbacks(lambda rec: (got.append((rec.outcome.name if rec.outcome else None, rec.end_time_millis is not None)), log.append('callback')))
+  ts = htf.PhaseDescriptor.wrap_or_copy(blocking('test_start', True)) if where == 'test_start' else (lambda: 'dut')
+  try:
+    res = ('returned', test.execute(test_start=ts))
+  except BaseException as e:  # pylint: disable=broad-except
+    res = ('raised', type(e).__name__, repr(e)[:200])
+  t_ret = len(log)
+  t_end = _time.time() + 0.8      # anything still running after execute() is over shows up behind this mark
+  while _time.time() < t_end:
+    try:
+      _time.sleep(0.05)
+    except KeyboardInterrupt:      # a (second) SIGINT that arrives when no test is registered any more: default handler
+      pass
+  return {'res': res, 'got': got, 'log': log[:t_ret], 'late': log[t_ret:]}
+
+
+def check_real(case):
+  r = CaseResult()
+  rd, wr = os.pipe()
+  pid = os.fork()
+  if pid == 0:
+    try:
+      os.close(rd)
+      try:
+        out = _real_child(case)
+      except BaseException as e:  # pylint: disable=broad-except
+        out = {'harness_error': repr(e)}
+      os.write(wr, json.dumps(out).encode())
+    finally:
+      os._exit(0)  # pylint: disable=protected-access
+  os.close(wr)
+  data = b''
+  while True:
+    chunk = os.read(rd, 65536)
+    if not chunk:
+      break
+    data += chunk
+  os.close(rd)
+  os.waitpid(pid, 0)
+  if not data:
+    raise RuntimeError('real SIGINT child produced nothing for %r' % (case,))
+  out = json.loads(data.decode())
+  if 'harness_error' in out:
+    raise RuntimeError('real SIGINT child failed: %s' % out['harness_error'])
+  tag = 'real SIGINT %r' % ({k: v for k, v in case.items() if k != 'real'},)
+  res, got, log = out['res'], out['got'], out['log']
+  ok_results = [['returned', False]] + ([['raised', 'KeyboardInterrupt']] if case['first'] else [])
+  if res[:2] not in ok_results:
+    r.bad('C04/real/execute-%s' % ('raised/' + res[1] if res[0] == 'raised' else 'returned-%s' % res[1]), '%s: execute() %r; log %r' % (tag, res, log))
+  if len(got) != 1:
+    r.bad('C04/real/callbacks-called-%d-times' % len(got), '%s: log %r' % (tag, log))
+  elif got[0] != ['ABORTED', True]:
+    r.bad('C04/real/record-%s' % ('not-finalized' if got[0][0] is None else 'outcome-' + str(got[0][0])), '%s: callback got outcome=%r end_time set=%r; log %r late %r' % (
+        tag, got[0][0], got[0][1], log, out['late']))
+  if 'callback' in log:
+    before = log[:log.index('callback')]
+    if 'main-start' in log and 'plug-td' not in before:
+      r.bad('C04/real/callback-before-plug-teardown', '%s: log %r late %r' % (tag, log, out['late']))
+    if case['where'] == 'main' and not case['second_after_ms'] and 'teardown-end' not in before:
+      r.bad('C04/real/callback-before-teardown-phase', '%s: log %r late %r' % (tag, log, out['late']))
+  if out['late']:
+    r.bad('C04/real/still-running-after-execute', '%s: after execute() was over: %r' % (tag, out['late']))
+  r.nontrivial = True
+  r.classes = ['real-sigint', 'where:' + case['where'], 'first:%s' % case['first'], 'second:%s' % bool(case['second_after_ms'])]
+  return r
+
+
 def plan(tier, seed):
   q = tier == 'quick'
   jobs = []
+  for sh in range(4):
+    jobs.append({'kind': 'real', 'name': 'real%d' % sh, 'shard': sh, 'nshards': 4})
   for ti, t in enumerate(TEMPLATES):
     for via in ('thread', 'signal'):
       jobs.append({'kind': 'sweep', 'name': 'sweep.%s.%s' % (t, via), 'template': t, 'via': via, 'stride': 3 if q else 1, 'offset': seed % 3 if q else 0,
@@ -385,6 +514,16 @@ def run_job(job, acct):
   if job['kind'] == '_regress':
     from vf import runner  # pylint: disable=g-import-not-at-top
     runner.run_regress(sys.modules[__name__], job, acct)
+    return
+  if job['kind'] == 'real':
+    for i, c in enumerate(REAL_CASES):
+      if i % job['nshards'] != job['shard']:
+        continue
+      case = dict(c, real=1)
+      r = check_real(case)
+      acct.case(case, r.nontrivial, r.classes)
+      for sig, detail in r.violations:
+        (acct.known if sig in known else acct.violation)(sig, case, detail)
     return
   setup_lines()
 
@@ -424,5 +563,7 @@ def run_job(job, acct):
 
 
 def replay(case):
+  if case.get('real'):
+    return check_real(case).violations
   setup_lines()
   return check(case)[0].violations
